@@ -168,11 +168,15 @@ int W_state; uint32_t W_proc, W_conn_timeout, W_interval; bool W_term_sent, W_de
 /* a connection event was missed */
 void ll_timeout(struct ll* self)
 __CPROVER_requires(LL_OK(self))
+#ifdef C27_CLAUSES
 /* C27: a running procedure whose response time out (40 s, armed when the request was sent) has expired ends the connection with 'LL response timeout' */
 __CPROVER_ensures((!TERMINATED && PROC_TIMEOUT) ==> (G_o.reason_disconnects == 1 && G_o.reason == 0x22 && G_o.disconnects == 0 && !SEQ_HAS(C_PLAN_TIMEOUT) && !SEQ_HAS(C_SETUP)))
 __CPROVER_ensures(G_o.reason_disconnects == 1 ==> (PROC_TIMEOUT && !TERMINATED))
+#endif
+#ifdef C21_CLAUSES
 /* C21: a pending indication is looked at for the event that was just planned - the counter AFTER planning */
 __CPROVER_ensures(SEQ_HAS(C_PENDING) ==> (G_o.seq[0] == C_PLAN_TIMEOUT && G_o.seq[1] == C_PENDING && G_o.pending_arg == W_counter_after && G_o.seq[2] == (W_pending_disconnect ? C_DISCONNECT : C_SETUP)))
+#endif
 __CPROVER_ensures(G_o.disconnects + G_o.reason_disconnects <= 1 && SEQ_HAS(C_EVENTS))
 __CPROVER_assigns(__CPROVER_object_whole(self), G_o, G_counter)
 {{timeout}}
@@ -180,18 +184,24 @@ __CPROVER_assigns(__CPROVER_object_whole(self), G_o, G_counter)
 void ll_end_event(struct ll* self, struct connection_event_events evts)
 __CPROVER_requires(LL_OK(self) && G_established == 0)
 #define ENDS_FIRST (TERMINATED || W_recv_disconnect)
+#ifdef C27_CLAUSES
 __CPROVER_ensures((!ENDS_FIRST && PROC_TIMEOUT) ==> (G_o.reason_disconnects == 1 && G_o.reason == 0x22 && G_o.disconnects == 0 && !SEQ_HAS(C_PLAN) && !SEQ_HAS(C_SETUP)))
 __CPROVER_ensures(G_o.reason_disconnects == 1 ==> (PROC_TIMEOUT && !ENDS_FIRST))
 /* the time out runs down with the time since the last event */
 __CPROVER_ensures((!ENDS_FIRST && W_proc != 0 && !PROC_TIMEOUT) ==> self->procedure_timeout_ == W_proc - W_t)
 __CPROVER_ensures((!ENDS_FIRST && W_proc == 0) ==> self->procedure_timeout_ == 0)
+#endif
+#ifdef C21_CLAUSES
 /* C21: received data first (it may bring the indication), then the next event is planned with the pending instant of the deferred indication, then the indication is applied if that event is its instant */
 __CPROVER_ensures(SEQ_HAS(C_PLAN) ==> (SEQ_HAS(C_RECEIVED) && G_o.plan_pending == ((self->defered_ll_control_pdu_.buffer != 0) || (self->defered_ll_control_pdu_.size != 0)) && G_o.plan_instant == self->defered_conn_event_counter_))
 __CPROVER_ensures(SEQ_HAS(C_PENDING) ==> (SEQ_HAS(C_PLAN) && G_o.pending_arg == W_counter_after))
+#endif
 __CPROVER_ensures(G_o.disconnects + G_o.reason_disconnects <= 1 && SEQ_HAS(C_EVENTS))
+#ifdef C29_CLAUSES
 /* C29: the first connection event that ends makes the connection 'established' - reported exactly then, once; afterwards the state is 'connected' (a connection that is being closed stays so) */
 __CPROVER_ensures(G_established == (W_state == state_connecting ? 1 : 0))
 __CPROVER_ensures((G_o.disconnects + G_o.reason_disconnects == 0) ==> self->state_ == (W_state == state_disconnecting ? state_disconnecting : state_connected))
+#endif
 __CPROVER_assigns(__CPROVER_object_whole(self), G_o, G_counter, G_established)
 {{end_event}}
 /* peripheral initiated requests */
@@ -262,13 +272,17 @@ static inline void ll_remote_connection_created(void) { AREC(A_REMOTE_CREATED); 
 #define A_HAS(c) (G_a.seq[0] == (c) || G_a.seq[1] == (c) || G_a.seq[2] == (c) || G_a.seq[3] == (c) || G_a.seq[4] == (c) || G_a.seq[5] == (c) || G_a.seq[6] == (c) || G_a.seq[7] == (c) || G_a.seq[8] == (c))
 void adv_received(struct ll* self, const struct rbuf* receive)
 __CPROVER_requires(__CPROVER_is_fresh(self, sizeof(struct ll)) && self->state_ == state_advertising && __CPROVER_is_fresh(receive, sizeof(struct rbuf)) && receive->size == 40 && __CPROVER_is_fresh(receive->buffer, 40) && G_a.n == 0 && G_o.n == 0)
+#ifdef C27_CLAUSES
 /* every per-connection flag of the link layer starts afresh: no request pending or running, no version indication seen or sent, no response time out running (C27) */
 __CPROVER_ensures(ACCEPTED ==> (self->state_ == state_connecting && !self->connection_parameters_request_pending_ && !self->connection_parameters_request_running_ && !self->connection_parameters_request_use_signaling_channel_
     && !self->phy_update_request_pending_ && !self->phy_update_request_running_ && !self->remote_versions_request_pending_ && !self->version_indication_received_ && !self->version_indication_sent_
     && !self->pending_event_ && self->procedure_timeout_ == 0 && self->disconnecting_reason_ == connection_timeout && self->used_features_ == G_supported_features))
+#endif
+#ifdef C29_CLAUSES
 /* the buffers, the connection parameter request state and the connection data (client configurations C09, security state C28 / C33) are new; then - and only then - 'connection requested' is reported, once (C29) */
 __CPROVER_ensures(ACCEPTED ==> (G_a.n == 8 && G_a.seq[0] == A_RESET_STATE && G_a.seq[1] == A_RESET_PDU && G_a.seq[2] == A_RESET_CPR && G_a.seq[3] == A_CONN_REQUEST && G_a.seq[4] == A_STOP_ADV && G_a.seq[5] == A_NEW_DATA
     && G_a.seq[6] == A_REMOTE_CREATED && G_a.seq[7] == A_CB_REQUESTED && G_o.n == 2 && G_o.seq[0] == C_SETUP && G_o.seq[1] == C_EVENTS))
+#endif
 /* anything else leaves the advertiser as it is and is not reported */
 __CPROVER_ensures(!ACCEPTED ==> (self->state_ == state_advertising && G_a.n == 0 && G_o.n == 0))
 __CPROVER_assigns(__CPROVER_object_whole(self), G_a, G_o)
@@ -351,11 +365,15 @@ static inline bool ll_handle_l2cap_input(const uint8_t* body, size_t n)
     && (G_rx.stuck ==> (G_rx.freed < G_rx.total && (LLID_OF(G_rx.freed) == ll_control_pdu_code ? !W_tx_ok[G_rx.freed] : (LLID_OF(G_rx.freed) == lld_data_pdu_code && (W_state == state_disconnecting || !W_l2[G_rx.freed]))))))
 enum ll_result handle_received_data(struct ll* self)
 __CPROVER_requires(LL_OK(self) && G_rx.total <= RX_MAX && G_rx.freed == 0 && G_rx.handled == 0 && G_rx.order_ok && !G_rx.stuck && G_k < RX_MAX)
+#ifdef C21_CLAUSES
 /* C21: while an indication waits for its instant nothing is consumed - and nothing else stops the processing: */
 __CPROVER_ensures(W_deferred ==> (G_rx.freed == 0 && G_rx.handled == 0 && __CPROVER_return_value == ll_result_go_ahead))
+#endif
+#ifdef C15_CLAUSES
 /* C15: the received PDUs are consumed in order, each exactly once and by the handler its LLID names; a PDU is freed only after it was handled */
 __CPROVER_ensures(!W_deferred ==> (G_rx.total <= RX_MAX && G_rx.freed <= G_rx.total && G_rx.handled == G_rx.freed && G_rx.order_ok
     && (G_k < G_rx.freed ==> G_rx.route[G_k] == ROUTE_OF(G_k))))
+#endif
 /* it ends with the queue empty, with the PDU that asked for a disconnect or has to wait for its instant (consumed, nothing behind it is), or at a PDU that cannot be handled NOW - no transmit buffer for
    the answer to a control PDU, L2CAP has no output buffer, the link is being closed. No PDU blocks the queue for good: one that is neither LL control nor L2CAP start is dropped */
 __CPROVER_ensures(!W_deferred ==> (G_rx.freed == G_rx.total || __CPROVER_return_value == ll_result_disconnect || IS_DEFERRED(self) || G_rx.stuck))
